@@ -293,7 +293,11 @@ func (f *Filter) removeOneWithRoot(value, root any) (out any, changed bool) {
 }
 
 func (f *Filter) locate(pp Expr, data any, rest Expr, max int) (locs []Expr) {
-	ns, lcs := f.evalWithRoot([]any{}, data, nil)
+	return f.locateWithRoot(pp, data, rest, max, nil)
+}
+
+func (f *Filter) locateWithRoot(pp Expr, data any, rest Expr, max int, root any) (locs []Expr) {
+	ns, lcs := f.evalWithRoot([]any{}, data, root)
 	stack, _ := ns.([]any)
 	if len(rest) == 0 { // last one
 		for _, lc := range lcs {
